@@ -165,8 +165,9 @@ Proof. exact ConfXlate.tr_conf_line_equiv. Qed.
 (* ... so the model's scanner loop over a text run is the loop with the translated body *)
 Theorem C17_line_loop_translated : forall segs s cur, ConfXlate.tr_segments s cur segs = do_segments s cur segs.
 Proof. exact ConfXlate.tr_segments_equiv. Qed.
-(* the statements around the loop are the expected ones (scanner over the token, ScanLines, the scanner's error returned) *)
-Theorem C17_line_loop_frame : tr_conf_line_frame = true.
+(* the statements around the loop are the expected ones (scanner over the token, ScanLines, the scanner's error returned),
+   and so is the decode loop around the three token cases (Decoder.Token, a token error other than io.EOF returned) *)
+Theorem C17_line_loop_frame : tr_conf_line_frame = true /\ tr_conf_decode_loop_frame = true /\ tr_conf_tag_cases_frame = true.
 Proof. exact ConfXlate.tr_conf_line_frame_pinned. Qed.
 Theorem C17_analysis_path_translated : forall p,
   tr_analysisPath p = match analysis_path p with Ok v => Some v | _ => None end.
